@@ -254,6 +254,89 @@ func TestVerif_Probes(t *testing.T) {
 		}
 		r.Case(vkit.NewHash().Str("concurrent-registration").Sum(), true)
 	}
+	// change iterators take and release table locks of their own (registration is a write, Close is a write transaction): every
+	// order of Changes / Commit / Abort / Close / a second Close must leave the tables lockable
+	{
+		type step string
+		seqs := [][]step{
+			{"changes", "abort", "close"},
+			{"changes", "abort", "close", "close"},
+			{"changes", "commit", "close", "close"},
+			{"changes", "abort", "changes2", "commit", "close", "close2"},
+			{"changes", "changes2", "abort", "close2", "close"},
+			{"changes", "commit", "delete", "close", "changes2", "abort", "close2"},
+			{"changes", "commit", "next", "delete", "next", "close"},
+		}
+		for variant, seq := range seqs {
+			db := statedb.New()
+			tabs := concw.NewTables(db, "it", 2)
+			w0 := db.WriteTxn(tabs[0])
+			tabs[0].Insert(w0, &concw.Row{ID: "x"})
+			w0.Commit()
+			var its [2]statedb.ChangeIterator[*concw.Row]
+			var w statedb.WriteTxn
+			panicked := ""
+			ok := within(10*time.Second, func() {
+				defer func() {
+					if x := recover(); x != nil {
+						panicked = fmt.Sprint(x)
+					}
+				}()
+				for _, st := range seq {
+					switch st {
+					case "changes", "changes2":
+						if w == nil {
+							w = db.WriteTxn(tabs[0], tabs[1])
+						}
+						it, err := tabs[0].Changes(w)
+						if err != nil {
+							panic(err)
+						}
+						its[len(st)-len("changes")] = it
+					case "commit":
+						w.Commit()
+						w = nil
+					case "abort":
+						w.Abort()
+						w = nil
+					case "delete":
+						wd := db.WriteTxn(tabs[0])
+						tabs[0].Delete(wd, &concw.Row{ID: "x"})
+						wd.Commit()
+					case "close":
+						its[0].Close()
+					case "close2":
+						its[1].Close()
+					case "next":
+						chs, _ := its[0].Next(db.ReadTxn())
+						for range chs {
+						}
+					}
+				}
+				if w != nil {
+					w.Abort()
+				}
+			})
+			r.Count("iterator_lifecycle_probes", 1)
+			switch {
+			case !ok:
+				r.Violation("blocked-in-iterator-lifecycle", variant, map[string]any{"message": fmt.Sprintf("the sequence %v does not complete", seq)})
+			case panicked != "":
+				r.Violation("panic-in-iterator-lifecycle", variant, map[string]any{"message": fmt.Sprintf("the sequence %v panics: %s", seq, panicked)})
+			case !within(10*time.Second, func() {
+				w := db.WriteTxn(tabs[0], tabs[1])
+				tabs[0].Insert(w, &concw.Row{ID: "y"})
+				w.Commit()
+				w = db.WriteTxn(tabs[0])
+				it, _ := tabs[0].Changes(w)
+				w.Commit()
+				it.Close()
+			}):
+				r.Violation("blocked-after-iterator-lifecycle", variant, map[string]any{"message": fmt.Sprintf("after the sequence %v a WriteTxn over the tables is never granted: a table lock was left held", seq)})
+			}
+			r.Case(vkit.NewHash().Str("iterator-lifecycle").Int(int64(variant)).Sum(), true)
+		}
+	}
 	// a rejected registration (duplicate name) must leave nothing locked: commits and registrations afterwards complete
 	{
 		db := statedb.New()
